@@ -33,7 +33,8 @@ def rich_device() -> RefAC:
     dev = RefAC({"power": True, "mode": 4, "temp": 27.5, "fan": 60, "swing": 0xC, "eco": True, "sleep": True, "humidity": 55,
                  "freeze": True, "purifier": True},
                 cap_pages=[[cap_record(0x0212, 1), cap_record(0x0214, 1), cap_record(0x0215, 1), cap_record(0x0210, 7),
-                            cap_record(0x0009, 1), cap_record(0x000A, 1), cap_record(0x0225, 0x22, 0x3C, 0x22, 0x3C, 0x22, 0x3C, 1)]])
+                            cap_record(0x0009, 1), cap_record(0x000A, 1), cap_record(0x0225, 0x22, 0x3C, 0x22, 0x3C, 0x22, 0x3C, 1),
+                            cap_record(0x0216, 2), cap_record(0x021F, 2)]])
     dev.indoor, dev.outdoor = (0x65, 3), (0x50, 7)
     dev.props[0x0009] = b"\x19"
     dev.props[0x000A] = b"\x32"
